@@ -14,7 +14,7 @@ import os
 from sim import devices
 from sim.canon import Log, dec_table, enc_table, canon_rows, canon_row, enc
 from sim.catalogue import (f_reducer, f_groupmapper, f_fold, _count)
-from sim.core import outcome, ddmin_lists
+from sim.core import outcome, ddmin_lists, draw_config
 from sim.devices import (SimTable, SimSourceError, SOURCE_ERROR_KINDS,
                          INJECTED_SOURCE_FAILURES)
 from sim.gen import gen_table
@@ -190,6 +190,15 @@ def _tables(rng, op, maxrows):
 
 
 def gen_case(rng, tier, g):
+    case = _gen_case(rng, tier, g)
+    # the host application's petl.config / logging set-up must not matter
+    cfg = draw_config(rng, 0.12, exclude=('sort_buffersize', 'failonerror'))
+    if cfg:
+        case['config'] = cfg
+    return case
+
+
+def _gen_case(rng, tier, g):
     name = OP_NAMES[g % len(OP_NAMES)] if rng.random() < 0.8 \
         else rng.choice(OP_NAMES)
     op = OPS[name]
